@@ -15,14 +15,23 @@ RESULT_UNSAT, RESULT_SAT, RESULT_UNKNOWN = "unsat", "sat", "unknown"
 def _solve_one(job):
     name, smt2, timeout_ms, want_model = job[:4]
     crosscheck = job[4] if len(job) > 4 else False
+    first_ms = job[5] if len(job) > 5 else None
     t0 = time.time()
     out = {"name": name, "backend": "z3", "result": RESULT_UNKNOWN, "time": 0.0, "model": None, "reason": ""}
     try:
         ctx = z3.Context()
         s = z3.Solver(ctx=ctx)
-        s.set("timeout", int(timeout_ms))
+        s.set("timeout", int(first_ms if first_ms else timeout_ms))
         s.from_string(smt2)
         r = s.check()
+        if r == z3.unknown and first_ms and first_ms < timeout_ms:
+            # contract asked for a short first slice: let cvc5 try before z3 spends the rest of its budget
+            r2, _reason2 = _cvc5(smt2, timeout_ms)
+            if r2 == RESULT_UNSAT:
+                out.update(result=RESULT_UNSAT, backend="cvc5", time=time.time() - t0)
+                return out
+            s.set("timeout", int(timeout_ms - first_ms))
+            r = s.check()
         out["time"] = time.time() - t0
         if r == z3.unsat:
             out["result"] = RESULT_UNSAT
@@ -103,7 +112,7 @@ def _cvc5(smt2, timeout_ms):
             pass
 
 
-def solve_all(obligations, timeout_ms=20000, workers=None, want_model=True, crosscheck=False):
+def solve_all(obligations, timeout_ms=20000, workers=None, want_model=True, crosscheck=False, first_ms=None):
     """obligations: list of core.Obligation. Returns list of result dicts (same order)."""
     workers = workers or min(16, os.cpu_count() or 4)
     jobs = []
@@ -113,7 +122,7 @@ def solve_all(obligations, timeout_ms=20000, workers=None, want_model=True, cros
         if z3.is_true(g):
             trivially[i] = {"name": ob.name, "backend": "simplifier", "result": RESULT_UNSAT, "time": 0.0, "model": None, "reason": ""}
             continue
-        jobs.append((i, (ob.name, ob.smt2(), timeout_ms, want_model, crosscheck)))
+        jobs.append((i, (ob.name, ob.smt2(), timeout_ms, want_model, crosscheck, first_ms)))
     results = [None] * len(obligations)
     for i, r in trivially.items():
         results[i] = r
